@@ -175,3 +175,14 @@ CHECKS['C10'] = dict(
     note='Integer expressions extracted from line()/space()/is_line()/gkern_to_g_clef_pitch are evaluated by the checker over -30..30 (two full '
          'periods of the mod-2 / mod-7 structure in both signs); repository code is never executed. Not decided: musical truth of the bottom-line constants.',
 )
+
+CHECKS['C08'] = dict(
+    category='other',
+    technique='origin checks of the signature-context plumbing (clone-on-create, update-on-signature, per-node lookup); guard truth table and affine form of the terminator synthesis; who-emits-cells rule (one spine predicate) on the excerpt preamble',
+    text='Decides ONLY the plumbing clauses without which an excerpt cannot carry its context: each node stores a clone of the inherited signature '
+         'context (the clone copies the dict), the importer updates it for signature tokens, the preamble reads it per node of from_stage, one '
+         'terminator row of affine length is synthesised under the stated guard, options are validated first, and every cell-emitting site of '
+         'export_string uses append_row\'s spine predicate (today violated by the preamble: known finding F16).',
+    note='Weak claim by design: header-first, consistent cell counts, terminated spines, error-free re-import and equivalent governing signatures of '
+         'excerpts are NOT decided by this family (they depend on the whole tree history and on is_signature_cancelled).',
+)
